@@ -9,6 +9,7 @@ import (
 	"os"
 	"time"
 
+	fuzzframes "github.com/refraction-networking/uquic/fuzzing/frames"
 	"github.com/refraction-networking/uquic/internal/protocol"
 	"github.com/refraction-networking/uquic/internal/qerr"
 	u "github.com/refraction-networking/uquic/internal/verifutil"
@@ -446,7 +447,31 @@ func (g *frGen) parse(c frCfg, lvl protocol.EncryptionLevel, v protocol.Version,
 	return fr, cls, consumed, true
 }
 
+// the repository's own fuzz target (fuzzing/frames.Fuzz: parse all frames of a payload, validate,
+// re-serialise, compare lengths; it panics on an inconsistency) — never run by the test suite
+func (g *frGen) fuzzEntry(lvl protocol.EncryptionLevel, in []byte) {
+	var p byte // Fuzz maps prefix%3 to Initial / Handshake / 1-RTT
+	switch lvl {
+	case protocol.EncryptionInitial:
+		p = 0
+	case protocol.EncryptionHandshake:
+		p = 1
+	case protocol.Encryption1RTT:
+		p = 2
+	default:
+		return
+	}
+	defer func() {
+		if e := recover(); e != nil {
+			g.monfail("frames/fuzz-entry", fmt.Sprintf("fuzzing/frames.Fuzz panicked: %v", e), fmt.Sprintf("lvl=%d input=%x", lvl, in))
+		}
+	}()
+	fuzzframes.Fuzz(append([]byte{p}, in...))
+	g.dist["fuzz-entry"]++
+}
+
 func (g *frGen) emitParse(c frCfg, lvl protocol.EncryptionLevel, v protocol.Version, in []byte, bucket string) (wire.Frame, int, int) {
+	g.fuzzEntry(lvl, in)
 	f, cls, consumed, ok := g.parse(c, lvl, v, in)
 	if !ok {
 		return nil, 99, 0
